@@ -382,6 +382,16 @@ def run_pulserdata(ctx, spec):
         if any(M[i][j] != M[j][i] for i in range(n) for j in range(n)) or any(M[i][i] != 0 for i in range(n)):
             problems.append(("not-symmetric", f"matrix at t={t} is not symmetric with zero diagonal"))
             break
+    if not problems:
+        # the matrix at time t must not depend on the history of queries: ask T first (emu-mps with qubit reordering
+        # does so in its constructor), then the same times in DESCENDING order
+        sds[0].interaction_matrix(T)
+        for t in sorted((x for x in grid if 0.0 <= x <= T), reverse=True):
+            bad = spec_oracle(sds[0].interaction_matrix(t).tolist(), srcl, spec["cutoff"], masked, t, float(want_end))
+            if bad:
+                problems.append(("matrix-depends-on-query-history",
+                                 f"after a query at T={T} the matrix at t={t} is wrong: {bad}"))
+                break
     for key, what in problems:
         ctx.violation(f"PulserData on a real sequence: {what}", {"spec": spec, "finding_key": key, "kind": "pulserdata"})
     return pd, not problems
